@@ -13,7 +13,7 @@ def reqOf (l : Line) : _root_.C06.Req :=
 
 def obsOf (l : Line) : _root_.C06.Obs :=
   { flow := str l "flow", hasIDToken := bool l "o.idtoken", rpVerifies := bool l "o.rpverifies", idClaims := parseClaims l "c.", amr := list l "o.amr",
-    cHashOK := boolD l "o.chash" true, userClaims := list l "o.userclaims", jwtAccessToken := bool l "o.jwtat", atVerifies := boolD l "o.atverifies" true,
+    cHashOK := boolD l "o.chash" true, atHashOK := boolD l "o.athash" true, userClaims := list l "o.userclaims", jwtAccessToken := bool l "o.jwtat", atVerifies := boolD l "o.atverifies" true,
     atClaims := { iss := str l "a.iss", sub := str l "a.sub" }, opaqueOK := boolD l "o.opaque" true, expiresInOK := boolD l "o.expiresin" true,
     scopeOK := boolD l "o.scope" true }
 
